@@ -103,7 +103,7 @@ func randomBehaviour(rnd *rand.Rand) []map[string]any {
 		}
 	}
 	randEdit := func() map[string]any {
-		all := []string{"K1", "K2", "cali-a", "cali-b", "cali-c", "other"}
+		all := []string{"K1", "K2", "cali-a", "cali-b", "cali-c", "other", "K1", "cali-a", "cali-a", "cali-b"}
 		c := all[rnd.Intn(len(all))]
 		switch rnd.Intn(11) {
 		case 9, 10:
@@ -124,6 +124,19 @@ func randomBehaviour(rnd *rand.Rand) []map[string]any {
 			return m("kind", "addchain", "chain", []string{"cali-old", "felix-old", "califw-x", "cali-c", "other2"}[rnd.Intn(5)], "rules", junkSeq(3))
 		}
 		return m("kind", "ins", "chain", kch[rnd.Intn(2)], "pos", []int{0, 9}[rnd.Intn(2)], "rule", foreign())
+	}
+	if rnd.Intn(5) < 3 {
+		// scenario mode: first bring a referenced chain structure into the kernel, so that the rest of the
+		// history (edits, tweaks, failures) acts on a converged table
+		rb := bodySeq(9, 3)
+		ra := append(bodySeq(9, 2), m("id", 1+rnd.Intn(6), "tgt", []string{"", "cali-b"}[rnd.Intn(2)]))
+		ri := append(bodySeq(9, 1), m("id", 1+rnd.Intn(6), "tgt", "cali-a"))
+		rapp := bodySeq(9, 1)
+		des["cali-b"], des["cali-a"] = rb, ra
+		hooks["iK1"], hooks["aK1"] = ri, rapp
+		beh = append(beh, m("op", "set_chain", "name", "cali-b", "rules", rb), m("op", "set_chain", "name", "cali-a", "rules", ra),
+			m("op", "set_ins", "chain", "K1", "rules", ri), m("op", "set_app", "chain", "K1", "rules", rapp),
+			m("op", "apply", "fw", 0, "fr", 0, "pre", "none", "prefail", false))
 	}
 	steps := 8 + rnd.Intn(18)
 	for i := 0; i < steps; i++ {
